@@ -2,6 +2,9 @@
      L <str> <name> <arr> <dict> <depth>     set the scanner limits for the following cases
      <id> S <hex>                            scan_objects: parse the bytes as a sequence of objects
      <id> F <p> <k> <value>*k                format (p = 1: OptPretty) -> hex of the text
+     <id> SO <hex>                           scan_objects, then Scan.text_ordered on the values in the order
+                                             of the text: "sorted" when every dictionary's keys appear in
+                                             the model's SortedKeys order, else "unsorted" and the values
      <id> FO <mask> <k> <value>*k            format_opt (mask = OutputOptions bits) -> hex of the text
      <id> PS <hex> / <id> PN <hex>           parse_string / parse_name
      <id> FS <p> <hex> / <id> FN <hex>       fmt_string / fmt_name -> hex
@@ -116,6 +119,16 @@ let () =
          let b = Buffer.create 64 in
          Stdlib.List.iter (fun v -> print_value b (Obj.canon v)) vs;
          Printf.printf "%s ok %d%s\n" id (Stdlib.List.length rest) (Buffer.contents b)
+       | Res.Err c -> Printf.printf "%s err:%s\n" id (cls_name c))
+    | [id; "SO"; h] ->
+      (match Scan.scan_objects !limits (bytes_of_hex h) with
+       | Res.Ok (vs, _) ->
+         if Stdlib.List.for_all Scan.text_ordered vs then Printf.printf "%s sorted\n" id
+         else begin
+           let b = Buffer.create 64 in
+           Stdlib.List.iter (print_value b) vs;
+           Printf.printf "%s unsorted%s\n" id (Buffer.contents b)
+         end
        | Res.Err c -> Printf.printf "%s err:%s\n" id (cls_name c))
     | id :: "F" :: p :: k :: rest ->
       let (vs, _) = parse_values (int_of_string k) rest in
